@@ -105,6 +105,13 @@ def ticks(x: float | None) -> int:
     return NOT_TICKS if t is None else t
 
 
+def _us(x) -> int:
+    """requested sleep in whole microseconds, rounded down (never overstates a sleep)"""
+    if not isinstance(x, (int, float)) or isinstance(x, bool) or x != x or x in (math.inf, -math.inf):
+        return NOT_TICKS
+    return int(math.floor(x * 1_000_000 + 1e-6))
+
+
 def class_perm(seed: int) -> dict[str, str]:
     """A permutation of class names that preserves the roles the library distinguishes
     (non-retryable triple, UNKNOWN, the rest)."""
@@ -195,8 +202,11 @@ class Env:
             v = Value(n, sc["k"], sc["ra"])
             self.values.append(v)
             return v
-        if out == "exc":
-            exc: BaseException = OpError(n, sc["k"], sc["ra"])
+        if out == "excsame" and self.raised and isinstance(self.raised[-1], OpError):
+            exc: BaseException = self.raised[-1]          # the very same object again
+            exc.attempt, exc.klass, exc.ra = n, sc["k"], sc["ra"]
+        elif out in ("exc", "excsame"):
+            exc = OpError(n, sc["k"], sc["ra"])
         elif out == "abort":
             from redress.errors import AbortRetryError
             exc = AbortRetryError()
@@ -373,7 +383,7 @@ class Env:
         t = self.now()
         st = ticks(s)
         if adv in ("kbd", "sysexit", "cancel"):
-            self.trace.append({"e": "sleep", "s": st, "adv": adv, "t": t, "t1": t})
+            self.trace.append({"e": "sleep", "s": st, "us": _us(s), "adv": adv, "t": t, "t1": t})
             exc = {"kbd": KeyboardInterrupt, "sysexit": SystemExit,
                    "cancel": asyncio.CancelledError}[adv]()
             self.sleeper_exc = exc
@@ -381,7 +391,7 @@ class Env:
         base = st if st >= 0 else 0
         d = {"exact": base, "over1": base + 1, "over4": base + 4, "none": 0}[adv]
         self.clock.advance(d)
-        self.trace.append({"e": "sleep", "s": st, "adv": adv, "t": t, "t1": self.now()})
+        self.trace.append({"e": "sleep", "s": st, "us": _us(s), "adv": adv, "t": t, "t1": self.now()})
 
     def sleeper(self, s: float) -> None:
         self._sleep_common(s)
@@ -449,7 +459,7 @@ class Env:
     def _exc_id(self, exc: BaseException | None) -> int:
         if exc is None:
             return NONE
-        for r, n in zip(self.raised, self.raised_n):
+        for r, n in zip(reversed(self.raised), reversed(self.raised_n)):
             if exc is r:
                 return n
         return NOT_OURS
@@ -519,7 +529,8 @@ def retry_kwargs(env: Env, cfg: dict, *, place: str = "call") -> tuple[dict, dic
         classifier=env.classifier,
         result_classifier=env.rclassifier if cfg["rc"] else None,
         strategy=env.make_strategy("default") if cfg["hasDefault"] else None,
-        strategies={env._ec(k): env.make_strategy(k) for k in cfg["strat"]} or None,
+        strategies=({env._ec(k): env.make_strategy(k) for k in cfg["strat"]} or
+                    ({} if not cfg["hasDefault"] else None)),
         deadline_s=cfg["D"] * vtime.TICK,
         max_attempts=cfg["maxAtt"],
         max_unknown_attempts=None if cfg["maxUnk"] == NONE else cfg["maxUnk"],
@@ -533,7 +544,11 @@ def retry_kwargs(env: Env, cfg: dict, *, place: str = "call") -> tuple[dict, dic
         abort_if=env.abort_if if cfg["abort"] else None,
     )
     handler = env.handler if cfg["handler"] else None
-    if env.is_async and env.async_callbacks:
+    if env.is_async and env.async_callbacks == "lambda":
+        # awaitables produced by plain callables (not coroutine functions)
+        bsleep = (lambda ctx, s: env.abefore_sleep(ctx, s)) if cfg["bsleep"] else None
+        sleeper = lambda s: env.asleeper(s)  # noqa: E731
+    elif env.is_async and env.async_callbacks:
         bsleep = env.abefore_sleep if cfg["bsleep"] else None
         sleeper = env.asleeper
     else:
